@@ -883,3 +883,13 @@ def nontrivial(case, out):
 
 def matches_known(k, v):
     return False
+
+
+# ---------------------------------------------------------------- real nodes through the public API (engine: extra_cases)
+# Which names a protocol proposes, and in which ORDER of preference (main name first, then the fallback names as
+# configured), is fixed where `Litep2p::new` (src/lib.rs) registers the protocols: the negotiation can only agree on
+# "the dialer's most preferred supported name" if the registered order is the configured one. The `node` area builds
+# real nodes and compares the registration record (main and fallback names per protocol, in order) with the wiring model
+# (static cases only here; seeded change C03-g1: Kademlia's fallback names reordered for three or more names).
+from . import node as _node  # noqa: E402
+_node.install(globals())
